@@ -18,7 +18,7 @@ Variable Hlow_nodot : forall a, contains 46 a = false -> contains 46 (to_lower o
 Lemma parse_marshal_norm : forall r,
   wf_recordb o r = true -> finding_class o serial r = false ->
   parse_line o serial (marshal o r) = Ok (norm serial r).
-Proof.
+Proof using o serial Hip_rt Hip_nil Hip_nosep.
   intros r W F. unfold finding_class in F. apply orb_false_iff in F. destruct F as [F F27].
   apply orb_false_iff in F. destruct F as [F12 F26].
   destruct r; cbn [f26_class] in F26.
@@ -57,7 +57,7 @@ Qed.
 Theorem marshal_idempotent : forall r r',
   wf_recordb o r = true -> finding_class o serial r = false ->
   parse_line o serial (marshal o r) = Ok r' -> marshal o r' = marshal o r.
-Proof.
+Proof using o serial Hip_rt Hip_nil Hip_nosep.
   intros r r' W F P. rewrite parse_marshal_norm in P by assumption. inversion P; subst.
   apply marshal_norm; assumption.
 Qed.
